@@ -150,6 +150,31 @@ class Result:
         self.functions.add(f.path if hasattr(f, "path") else f)
 
 
+class Filtered:
+    """View of a Result that records only the obligations of the given rules (used when a property imports part of
+    another rule family, so that it does not alarm about clauses that are not its own)."""
+
+    def __init__(self, res, allowed):
+        self.res = res
+        self.allowed = set(allowed)
+        self.extra = res.extra
+
+    def ob(self, rule, *a, **k):
+        if rule in self.allowed:
+            return self.res.ob(rule, *a, **k)
+        return True
+
+    def floor(self, rule, *a, **k):
+        if rule in self.allowed:
+            self.res.floor(rule, *a, **k)
+
+    def missing(self, rule, *a, **k):
+        self.res.missing(rule, *a, **k)
+
+    def fn(self, f):
+        self.res.fn(f)
+
+
 def fmt_loc(loc):
     if not loc:
         return ""
